@@ -887,8 +887,27 @@ class SymBytes(tuple):
         return SymBytes(tuple(other) + tuple(self))
 
 
+def i_from_bytes(I, b, byteorder="big", signed=False):
+    ctx = I.ctx
+    if not I.is_sym(b):
+        try:
+            return int.from_bytes(bytes(b), byteorder, signed=signed)
+        except Exception as e:
+            raise PyRaise(e)
+    if byteorder != "big" or signed:
+        raise Unsupported("from_bytes little/signed")
+    if 8 * len(b) >= ctx.W - 1:
+        raise Unsupported("from_bytes wider than W")
+    t = ctx.bv(0)
+    for x in b:
+        t = (t << 8) | (ctx.bv(x) & ctx.bv(255))
+    return SymInt(t)
+
+
 def i_to_bytes(I, x, length, byteorder="big", signed=False):
     ctx = I.ctx
+    if isinstance(length, SymInt):
+        length = ctx.realize(length, cap=64)
     if byteorder != "big" or signed:
         raise Unsupported("to_bytes little/signed")
     if not isinstance(x, SymInt):
@@ -955,7 +974,7 @@ def install():
     I.intrinsics.update({bytes: i_bytes, str: i_str, repr: i_repr, list: i_list, bytearray: i_bytearray,
                          len: i_len, int: i_int, bool: i_bool, isinstance: i_isinstance, max: i_max,
                          math.floor: i_floor, math.log: i_log, struct.pack: i_pack, hmac.new: i_hmac_new,
-                         "int.bit_length": i_bit_length, "int.to_bytes": i_to_bytes})
+                         "int.bit_length": i_bit_length, "int.to_bytes": i_to_bytes, int.from_bytes: i_from_bytes})
 
 def _packed_add(a, b):
     if isinstance(b, SymPacked):
